@@ -14,7 +14,8 @@ import itertools
 
 CYCLE_KINDS = ["opt", "pipe", "list", "dict", "vt"]
 # edges through a *named* (non-string) alias / NewType of a container, declared after the classes
-ALIAS_KINDS = ["alist", "adict", "ntlist", "aopt"]
+# ... or through a named wrapper directly over the class itself: Optional[NewType(X)], list[alias(X)], tuple[NewType(X), ...]
+ALIAS_KINDS = ["alist", "adict", "ntlist", "aopt", "optnt", "listal", "vtnt"]
 ALL_KINDS = CYCLE_KINDS + ["direct"]
 EMBEDDINGS = ["self", "list", "dict", "opt", "vt"]
 CLASS_NAMES = ["A", "B", "C", "D"]
@@ -53,6 +54,10 @@ def to_spec(topology, root=0, embedding="self", flavours=None, future=False, mod
         if embedding == "edgealias" and kind == "alist" and target == root:
             # `type AlRoot = list[Root]` is the root annotation and Root (or a class below it) refers to it by name
             return {"k": "ref", "name": "AlRoot", "mod": mods[root]}
+        if kind in ("optnt", "listal", "vtnt"):
+            alias_n[0] += 1
+            w = {"k": "latealias", "name": f"Ref{alias_n[0]}", "mod": owner_mod, "a": [inner], "wrapper": "newtype" if kind.endswith("nt") else "alias"}
+            return wrap({"optnt": "opt", "listal": "list", "vtnt": "vt"}[kind], w)
         if kind in ALIAS_KINDS:
             alias_n[0] += 1
             base = {"alist": "list", "adict": "dict", "ntlist": "list", "aopt": "opt"}[kind]
